@@ -19,6 +19,10 @@ def check(ctx: Ctx) -> None:
     ctx.trust("Engine A abstract semantics (sa/interp.py, sa/eval_*.py)")
     m = model(ctx)
     preconditions(ctx, m)
+    # str()/render() lay out the tagified copy: the copy must carry the whitespace flag of the original
+    from ..interp import Interp
+    from .c08 import tag_tagify_shape
+    tag_tagify_shape(ctx, Interp(ctx.prog), rule="C05.tagify", fields={"add_ws"})
     n = 0
     for step in walk(m, block_in_inline=True):
         ch, prev, p = step["child"], step["prev"], step["params"]
